@@ -51,9 +51,9 @@ def to_xml(r):
             a.append(('min_fds', str(r['minf'])))
         if r.get('maxf', -1) != -1:
             a.append(('max_fds', str(r['maxf'])))
-        if not a:
-            # a rule must have at least one attribute: "any destination" / "any sender"
-            a.append(('send_destination', '*') if r['k'] == 'send' else ('receive_sender', '*'))
+        if not any(k.startswith(p) for k, _v in a):
+            # make the direction explicit ("eavesdrop" alone would be read as a receive rule): any destination / any sender
+            a.insert(0, ('send_destination', '*') if r['k'] == 'send' else ('receive_sender', '*'))
     return '<%s %s/>' % (tag, ' '.join('%s="%s"' % kv for kv in a))
 
 
